@@ -76,6 +76,8 @@ def run(tier, seed, replay=None):
         cases = prompt_cases() + timedcheck.op_cases(OPS, tier, rng, exh_len=5, finish=True, has_src=False, nrand=6000) + async_cases(tier, rng)
     res = correspond(rep, "C08", cases, "C08_interval / C08_interval_at / C08_timer / C08_async_prefix / C08_async_complete")
     xcheck.cross_check(rep, "C08", cases, res, 40 if tier == "quick" else 400)
+    if not replay:
+        real_timer_cases(rep, "C08 (the model's assumption about new_timer: not ready before its duration has elapsed)")
     c = rep.coverage
     hist = {}
     for _, _, t in cases:
